@@ -58,6 +58,16 @@ inductive Stop where
   | outOfFuel
 deriving Repr, Inhabited, DecidableEq
 
+/-- structured twin of one entry of the provider call log (ghost; the driver compares its rendering with the log) -/
+inductive GEv where
+  /-- `should_cancel_with_value` polled: poll number, whether it returned a value -/
+  | poll (k : Nat) (fired : Bool)
+  /-- a `get_candidates` (`cands = true`) / `get_dependencies` request is started -/
+  | call (cands : Bool) (id : Nat)
+  /-- the answer of a request has been obtained (asynchronous provider only) -/
+  | got (cands : Bool) (id : Nat)
+deriving Repr, Inhabited, DecidableEq
+
 /-- `SolvableOrRootId`: `none` = root -/
 abbrev SoR := Option Nat
 
@@ -100,6 +110,7 @@ structure S where
   log : List String := []                   -- provider call log, newest first: c<n> d<s> p<k>/P<k>
   issuedCands : List Nat := []              -- ghost: packages whose candidates were requested in this solve, newest first
                                             -- (updated exactly where `c<n>` is logged; the driver compares the two)
+  glog : List GEv := []                     -- ghost: structured twin of `log`, newest first (updated exactly where `log` is)
   polls : Nat := 0
   cancelAt : Option Nat := none             -- signal up at this poll number
   cancelAtCall : Option Nat := none         -- signal goes up when this provider request starts
@@ -233,6 +244,15 @@ def rootStr : Option Nat → String
   | none => "root"
   | some sv => toString sv
 
+/-- the log entry a ghost entry stands for -/
+def gevStr : GEv → String
+  | .poll k true => s!"P{k}"
+  | .poll k false => s!"p{k}"
+  | .call true n => s!"c{n}"
+  | .call false sv => s!"d{sv}"
+  | .got true n => s!"C{n}"
+  | .got false sv => s!"D{sv}"
+
 /-- the line the hook prints for an event -/
 def evLine : Ev → String
   | .var v (.solvable sv) => s!"var {v} solvable {sv}"
@@ -315,8 +335,8 @@ def fires (s : S) : Bool :=
 
 /-- `should_cancel_with_value` as seen by the solver: poll number k fires according to the plan -/
 def pollCancel : M Unit := fun s =>
-  if fires s then (.error (.cancelled (7000 + s.polls)), { s with polls := s.polls + 1, log := s!"P{s.polls}" :: s.log })
-  else (.ok (), { s with polls := s.polls + 1, log := s!"p{s.polls}" :: s.log })
+  if fires s then (.error (.cancelled (7000 + s.polls)), { s with polls := s.polls + 1, log := s!"P{s.polls}" :: s.log, glog := .poll s.polls true :: s.glog })
+  else (.ok (), { s with polls := s.polls + 1, log := s!"p{s.polls}" :: s.log, glog := .poll s.polls false :: s.glog })
 
 /-- a provider request starts: the call-indexed cancellation plan may raise / withdraw the signal -/
 def requestStarted : M Unit := modify fun s =>
@@ -332,7 +352,7 @@ def getCandidates (U : Universe) (n : Nat) : M Pkg := do
     pollCancel
     let p := (U.pkg? n).getD { cands := [] }
     modify fun s => { s with fetchedCands := n :: s.fetchedCands, hinted := s.hinted ++ hintedBy p, log := s!"c{n}" :: s.log,
-                             issuedCands := n :: s.issuedCands }
+                             glog := .call true n :: s.glog, issuedCands := n :: s.issuedCands }
     requestStarted
   pure ((U.pkg? n).getD { cands := [] })
 
@@ -355,7 +375,7 @@ def getDeps (U : Universe) (sv : Nat) : M Deps := do
   let s ← get
   if !s.fetchedDeps.contains sv then
     pollCancel
-    modify fun s => { s with fetchedDeps := sv :: s.fetchedDeps, log := s!"d{sv}" :: s.log }
+    modify fun s => { s with fetchedDeps := sv :: s.fetchedDeps, log := s!"d{sv}" :: s.log, glog := .call false sv :: s.glog }
     requestStarted
   pure (U.deps sv)
 
